@@ -213,6 +213,201 @@ theorem find_in_bounds (T : UTables) (cs : Array Char) (r : Re) (start : Nat) (m
     · cases h
   · cases h
 
+/-! ### lower bound: nothing is reported in front of the position the search started at -/
+
+def SlotsGe (p : Nat) (sl : Slots) : Prop := ∀ (i v : Nat), sl[i]? = some (some v) → p ≤ v
+
+
+theorem slotsGe_set (p : Nat) (sl : Slots) (n v : Nat) (hs : SlotsGe p sl) (hv : p ≤ v) : SlotsGe p (sl.set! n (some v)) := by
+  intro i w hw
+  by_cases hi : i = n
+  · subst hi
+    by_cases hlt : i < sl.size
+    · have : (sl.set! i (some v))[i]? = some (some v) := by simp [Array.set!, hlt]
+      rw [this] at hw; cases hw; exact hv
+    · have : (sl.set! i (some v))[i]? = none := by simp [Array.set!]; omega
+      rw [this] at hw; cases hw
+  · have : (sl.set! n (some v))[i]? = sl[i]? := by
+      simp only [Array.set!, Array.setIfInBounds]
+      split
+      · exact Array.getElem?_set_ne _ (by omega)
+      · rfl
+    rw [this] at hw; exact hs i w hw
+
+theorem slotsGe_empty (p n : Nat) : SlotsGe p (Array.replicate n none) := by
+  intro i v h
+  simp [Array.getElem?_replicate] at h
+
+def ThreadsGe (p : Nat) (ts : Array Thread) : Prop := ∀ t ∈ ts.toList, SlotsGe p t.slots
+
+theorem threadsGe_push (p : Nat) (ts : Array Thread) (t : Thread) (h : ThreadsGe p ts) (ht : SlotsGe p t.slots) : ThreadsGe p (ts.push t) := by
+  intro x hx
+  simp only [Array.toList_push, List.mem_append, List.mem_singleton] at hx
+  rcases hx with hx | rfl
+  · exact h x hx
+  · exact ht
+
+theorem addThreads_ge (T : UTables) (cs : Array Char) (prog : Array Inst) (s pos : Nat) (hsp : s ≤ pos) :
+    ∀ (fuel : Nat) (stack : List (Nat × Slots)) (seen : Array Bool) (acc : Array Thread),
+      (∀ e ∈ stack, SlotsGe s e.2) → ThreadsGe s acc → ThreadsGe s (addThreads T cs prog pos fuel stack seen acc).2 := by
+  intro fuel
+  induction fuel with
+  | zero => intro stack seen acc _ h; simpa [addThreads] using h
+  | succ n ih =>
+    intro stack seen acc hst hacc
+    cases stack with
+    | nil => simpa [addThreads] using hacc
+    | cons top rest =>
+      obtain ⟨pc, sl⟩ := top
+      have hsl : SlotsGe s sl := hst (pc, sl) List.mem_cons_self
+      have hrest : ∀ e ∈ rest, SlotsGe s e.2 := fun e he => hst e (List.mem_cons_of_mem _ he)
+      simp only [addThreads]
+      split
+      · exact ih rest seen acc hrest hacc
+      · cases prog[pc]! with
+        | jmp x => exact ih _ _ acc (by intro e he; rcases List.mem_cons.mp he with rfl | he; exact hsl; exact hrest e he) hacc
+        | split x y =>
+          exact ih _ _ acc (by
+            intro e he
+            rcases List.mem_cons.mp he with rfl | he
+            · exact hsl
+            · rcases List.mem_cons.mp he with rfl | he
+              · exact hsl
+              · exact hrest e he) hacc
+        | save sn =>
+          exact ih _ _ acc (by
+            intro e he
+            rcases List.mem_cons.mp he with rfl | he
+            · exact slotsGe_set s sl sn pos hsl hsp
+            · exact hrest e he) hacc
+        | wordb =>
+          simp only
+          split
+          · exact ih _ _ acc (by intro e he; rcases List.mem_cons.mp he with rfl | he; exact hsl; exact hrest e he) hacc
+          · exact ih rest _ acc hrest hacc
+        | chr cset => exact ih rest _ _ hrest (threadsGe_push s acc _ hacc hsl)
+        | done => exact ih rest _ _ hrest (threadsGe_push s acc _ hacc hsl)
+
+theorem threadsGe_empty (p : Nat) : ThreadsGe p #[] := by intro t ht; simp at ht
+
+theorem stepThreads_ge (T : UTables) (cs : Array Char) (prog : Array Inst) (s pos : Nat) (hsp : s ≤ pos) (clist : Array Thread)
+    (h : ThreadsGe s clist) :
+    ThreadsGe s (stepThreads T cs prog pos clist).1 ∧ ∀ sl, (stepThreads T cs prog pos clist).2 = some sl → SlotsGe s sl := by
+  unfold stepThreads
+  simp only
+  have key : ∀ (l : List Thread) (st : Array Bool × Array Thread × Option Slots × Bool),
+      (∀ t ∈ l, SlotsGe s t.slots) → ThreadsGe s st.2.1 → (∀ sl, st.2.2.1 = some sl → SlotsGe s sl) →
+      let r := l.foldl (fun (st : Array Bool × Array Thread × Option Slots × Bool) th =>
+        if st.2.2.2 then st else
+        match prog[th.pc]! with
+        | .chr cset =>
+          if h : pos < cs.size then
+            if cset.has T cs[pos] then
+              ((addThreads T cs prog (pos + 1) (4 * prog.size + 8) [(th.pc + 1, th.slots)] st.1 st.2.1).1,
+               (addThreads T cs prog (pos + 1) (4 * prog.size + 8) [(th.pc + 1, th.slots)] st.1 st.2.1).2, st.2.2.1, false)
+            else st
+          else st
+        | .done => (st.1, st.2.1, some th.slots, true)
+        | _ => st) st
+      ThreadsGe s r.2.1 ∧ ∀ sl, r.2.2.1 = some sl → SlotsGe s sl := by
+    intro l
+    induction l with
+    | nil => intro st _ h1 h2; exact ⟨h1, h2⟩
+    | cons th rest ih =>
+      intro st hl h1 h2
+      simp only [List.foldl_cons]
+      have hth : SlotsGe s th.slots := hl th List.mem_cons_self
+      have hrest : ∀ t ∈ rest, SlotsGe s t.slots := fun t ht => hl t (List.mem_cons_of_mem _ ht)
+      apply ih _ hrest
+      · split
+        · exact h1
+        · split
+          · split
+            · split
+              · exact addThreads_ge T cs prog s (pos + 1) (Nat.le_succ_of_le hsp) _ _ _ _
+                  (by intro e he; rcases List.mem_singleton.mp he with rfl; exact hth) h1
+              · exact h1
+            · exact h1
+          · exact h1
+          · exact h1
+      · split
+        · exact h2
+        · split
+          · split
+            · split
+              · exact h2
+              · exact h2
+            · exact h2
+          · intro sl hsl; simp only [Option.some.injEq] at hsl; rw [← hsl]; exact hth
+          · exact h2
+  have hk := key clist.toList (Array.replicate prog.size false, #[], none, false) h (threadsGe_empty _) (by intro sl hsl; cases hsl)
+  rw [← Array.foldl_toList]
+  exact hk
+
+theorem findLoop_ge (T : UTables) (cs : Array Char) (prog : Array Inst) (empty : Slots) (s : Nat) (he : SlotsGe s empty) :
+    ∀ (n pos : Nat) (pending : Array Thread) (found : Option Slots), s ≤ pos →
+      ThreadsGe s pending → (∀ sl, found = some sl → SlotsGe s sl) →
+      ∀ sl, findLoop T cs prog empty n pos pending found = some sl → SlotsGe s sl := by
+  intro n
+  induction n with
+  | zero => intro pos pending found _ _ hf sl h; simp only [findLoop] at h; exact hf sl h
+  | succ k ih =>
+    intro pos pending found hsp hp hf sl h
+    simp only [findLoop] at h
+    by_cases hpos : pos > cs.size
+    · simp only [hpos, if_true] at h; exact hf sl h
+    · simp only [hpos, if_false] at h
+      have hclist : ThreadsGe s (if found.isNone = true then
+          (addThreads T cs prog pos (4 * prog.size + 8) [(0, empty)]
+            (pending.foldl (fun sn th => sn.set! th.pc true) (Array.replicate prog.size false)) pending).2 else pending) := by
+        split
+        · exact addThreads_ge T cs prog s pos hsp _ _ _ _ (by intro e hm; rcases List.mem_singleton.mp hm with rfl; exact he) hp
+        · exact hp
+      generalize hcl : (if found.isNone = true then
+          (addThreads T cs prog pos (4 * prog.size + 8) [(0, empty)]
+            (pending.foldl (fun sn th => sn.set! th.pc true) (Array.replicate prog.size false)) pending).2 else pending) = clist at h hclist
+      by_cases hemp : clist.isEmpty = true
+      · simp only [hemp, if_true] at h
+        by_cases hfs : found.isSome = true
+        · simp only [hfs, if_true] at h; exact hf sl h
+        · simp only [hfs, Bool.false_eq_true, if_false] at h
+          exact ih (pos + 1) #[] none (Nat.le_succ_of_le hsp) (threadsGe_empty _) (by intro sl hsl; cases hsl) sl h
+      · simp only [hemp, Bool.false_eq_true, if_false] at h
+        have hstep := stepThreads_ge T cs prog s pos hsp clist hclist
+        refine ih (pos + 1) _ _ (Nat.le_succ_of_le hsp) hstep.1 ?_ sl h
+        intro sl' hsl'
+        split at hsl'
+        · rename_i m hm
+          cases hsl'
+          exact hstep.2 _ hm
+        · exact hf sl' hsl'
+
+/-- a match found by a search from `start` begins at or behind `start` -/
+theorem find_from (T : UTables) (cs : Array Char) (r : Re) (start : Nat) (m : RMatch) (h : Re.find T cs r start = some m) :
+    start ≤ m.start ∧ start ≤ m.stop := by
+  unfold Re.find at h
+  simp only at h
+  split at h
+  · rename_i sl hsl
+    have hb := findLoop_ge T cs r.program (Array.replicate (2 * (r.maxGroup + 1)) none) start (slotsGe_empty start _)
+      _ start #[] none (Nat.le_refl _) (threadsGe_empty _) (by intro sl hs; cases hs) sl hsl
+    split at h
+    · rename_i s0 e0 hs he
+      cases h
+      refine ⟨hb 0 s0 ?_, hb 1 e0 ?_⟩
+      · have : sl[0]? = some sl[0]! := by
+          by_cases h0 : 0 < sl.size
+          · simp [getElem!_pos, h0]
+          · simp [getElem!_neg, h0] at hs
+        rw [this, hs]
+      · have : sl[1]? = some sl[1]! := by
+          by_cases h1 : 1 < sl.size
+          · simp [getElem!_pos, h1]
+          · simp [getElem!_neg, h1] at he
+        rw [this, he]
+    · cases h
+  · cases h
+
 /-- every match `captures_iter` yields lies inside the line -/
 theorem all_in_bounds (T : UTables) (cs : Array Char) (r : Re) :
     ∀ m ∈ Re.all T cs r, m.start ≤ cs.size ∧ m.stop ≤ cs.size ∧ SlotsLe cs.size m.slots := by
@@ -251,5 +446,34 @@ theorem cap_in_bounds (n : NRe) (m : RMatch) (size : Nat) (hm : SlotsLe size m.s
       exact ⟨hm _ _ hs, hm _ _ he⟩
     · cases h
   · cases h
+
+/-- matches in text order: each one begins at or behind the end of its predecessor -/
+def Chain : Nat → List RMatch → Prop
+  | _, [] => True
+  | lo, m :: rest => lo ≤ m.start ∧ lo ≤ m.stop ∧ Chain m.stop rest
+
+/-- `captures_iter` yields its matches in text order and without overlap -/
+theorem all_chain (T : UTables) (cs : Array Char) (r : Re) : Chain 0 (Re.all T cs r) := by
+  unfold Re.all
+  have key : ∀ (fuel start : Nat) (last : Option Nat), Chain start (Re.all.go T cs r fuel start last) := by
+    intro fuel
+    induction fuel with
+    | zero => intro start last; simp [Re.all.go, Chain]
+    | succ n ih =>
+      intro start last
+      simp only [Re.all.go]
+      split
+      · simp [Chain]
+      · rename_i m0 hm0
+        split
+        · simp [Chain]
+        · rename_i m1 hm1
+          have hge : start ≤ m1.start ∧ start ≤ m1.stop := by
+            split at hm1
+            · have := find_from T cs r _ _ hm1
+              exact ⟨by omega, by omega⟩
+            · cases hm1; exact find_from T cs r _ _ hm0
+          exact ⟨hge.1, hge.2, ih _ _⟩
+  exact key _ _ _
 
 end SCP.RegexBounds
